@@ -230,6 +230,30 @@ def _run(V, work, tier):
             V.add(None, "real trace rejected by KernelTrace at a tail-call action: %s" % json.dumps(r["event"]), r)
         else:
             V.notes.append("trace rejection attributed to %s: %s" % (r["prop"], json.dumps(r["event"])))
+    # ---- the same relation UNDER A STEP BUDGET: a loop that finishes within b steps without elimination finishes within b
+    # steps with it (value, output and error condition are the same in both modes).  The budgets tried are the ones between
+    # the two modes' own step counts, where the modes can differ at all
+    win = []
+    for ci, ch, mutual, cls in loops[:12]:
+        key = "%d/%d" % (ci, 40)
+        if key not in bigr:
+            continue
+        s_on, s_off = (bigr[key]["runs"][c]["evals"][0].get("steps") for c in (0, 1))
+        if not s_on or not s_off or s_on == s_off:
+            continue
+        b = (s_on + s_off) // 2
+        src = next(x for x in big if x["id"] == key)["seq"]
+        win.append({"id": key, "seq": src, "cfgs": [{"maxsteps": b}, {"tro": "off", "maxsteps": b}], "b": b, "s_on": s_on, "s_off": s_off})
+    nwin = 0
+    if win:
+        wr = {r["id"]: r for r in driver_json(binary, ["run"], [{k: v for k, v in w.items() if k in ("id", "seq", "cfgs")} for w in win])}
+        for w in win:
+            a, b_ = (wr[w["id"]]["runs"][c]["evals"][0]["v"] for c in (0, 1))
+            nwin += 1
+            if json.dumps(a, sort_keys=True) != json.dumps(b_, sort_keys=True):
+                V.add("budget-window:tail-iteration-step", "under a budget of %d steps a loop of 40 turns ends differently with elimination (%s; it needs %d steps) and without (%s; %d steps)" % (
+                    w["b"], a.get("s") or a.get("t"), w["s_on"], b_.get("s") or b_.get("t"), w["s_off"]), {"src": w["seq"], "budget": w["b"], "on": a, "off": b_})
+    V.coverage["budget_window_relations"] = nwin
     V.coverage["traces_validated_against_impl"] = nb1 + summ["programs"]
     V.coverage["exhaustive"] = False
     V.coverage["explanation"] = ("Kernel exhaustive within bounds; Machine transcripts of %d programs x 2 configurations compared with the real interpreter "
